@@ -506,37 +506,56 @@ def k_first_month(eng):
 
 # ------------------------------------------------------------------------------------------------ sexagenary month stepping (11.g)
 def k_sixty_month_next(eng):
+    """SixtyCycleMonth::next(n): month pillar + n mod 60; year = floor((12 * year + index in year + n) / 12).  Sexagenary years are
+    objects carrying their year number (from_year(x) -> x, next(k) -> +k: 11.f), so the specification reads the year of whatever
+    year object ends up in the result, however it was built."""
     holder = {}
+
+    class YearObj:
+        def __init__(self, t):
+            self.t = t
 
     def build(eng):
         fields = struct_fields(os.path.join(REPO, "src/tyme/sixtycycle.rs"), "SixtyCycleMonth")
         ix = {n: k for k, n in enumerate(fields)}
-        yfields = struct_fields(os.path.join(REPO, "src/tyme/sixtycycle.rs"), "SixtyCycleYear")
         fn = M.find_fn(eng.fns, "next", "&SixtyCycleMonth")
-        ctx = _ctx(eng, {"SixtyCycleMonth::get_index_in_year": ("get_index_in_year", "&SixtyCycleMonth", None),
-                         "SixtyCycleYear::get_year": ("get_year", "&SixtyCycleYear", None)})
+        ctx = _ctx(eng, {"SixtyCycleMonth::get_index_in_year": ("get_index_in_year", "&SixtyCycleMonth", None)})
         rec = Rec(ctx, "self", "SixtyCycleMonth")
-        yrec = rec.field(ix["year"], "SixtyCycleYear")
-        year = yrec.field(yfields.index("year"), "isize")
+        year = ctx.fresh_value("self.year", "isize")
+        rec.fields[ix["year"]] = YearObj(year)
         k = ctx.fresh_value("self.month", "usize")
         rec.fields[ix["month"]] = Obj("SixtyCycle", k)
         n = ctx.fresh_value("n", "isize")
         holder.update(ctx=ctx, year=year, k=k, n=n)
+        model = ctx.model
+        base = model.call
+
+        def call(c, fr, callee, args, path):
+            a = [model.deref(c, x) for x in args]
+            if callee == "SixtyCycleYear::from_year" and isinstance(a[0], T):
+                return True, YearObj(a[0])
+            if a and isinstance(a[0], YearObj):
+                if callee == "SixtyCycleYear::get_year":
+                    return True, a[0].t
+                if callee == "<SixtyCycleYear as Tyme>::next" and isinstance(a[1], T):
+                    return True, YearObj(T("(+ %s %s)" % (a[0].t.s, a[1].s), "Int"))
+                if callee.endswith("::clone"):
+                    return True, a[0]
+            return base(c, fr, callee, args, path)
+        model.call = call
         paths = ctx.run(fn, [("refrec", rec), n])
         pre = ["(<= 1 %s 9998)" % year.s, "(<= 0 %s 59)" % k.s, "(<= (- 100000) %s 100000)" % n.s]
 
         def shape(p):
             if not (isinstance(p.ret, Rec) and hasattr(p.ret, "named") and "month" in p.ret.named and "year" in p.ret.named):
                 return "result is not a SixtyCycleMonth aggregate"
-            names = [c[0] for c in p.calls if c[0] == "SixtyCycleYear::from_year"]
-            if len(names) != 1:
-                return "expected exactly one SixtyCycleYear::from_year call"
+            if not isinstance(p.ret.named["year"], YearObj):
+                return "the result's year is not a modelled sexagenary year"
             return None
 
         def posts(p):
             newk = _pillar_idx(p.ret.named["month"]).s
-            ycall = [c for c in p.calls if c[0] == "SixtyCycleYear::from_year"][0]
-            y2 = ycall[1][0].s
+            y2 = p.ret.named["year"].t.s
             i = "(mod (- (mod %s 12) 2) 12)" % k.s
             tot = "(+ (* 12 %s) %s %s)" % (year.s, i, n.s)
             return [("pillar", "(= %s (mod (+ %s %s) 60))" % (newk, k.s, n.s)),
